@@ -108,11 +108,12 @@ def ob_vacuity(modname, fname, vkey):
     dis = [o for o in obs if o[1] == "disjoint"]
     if not dis:
         return {"status": "error", "detail": "no store into a shared array collected for %s" % fname}
+    from vlib import smt
+
     s = z3.Solver()
-    s.set("timeout", 30000)
     for a in dis[0][2]:
         s.add(a)
-    r = s.check()
+    r = {"unsat": z3.unsat, "sat": z3.sat}.get(smt.z3_check(s, 30)[0], z3.unknown)
     if r == z3.sat:
         return proved("z3", "assumptions satisfiable (%d store pairs)" % len(dis))
     if r == z3.unsat:
@@ -242,8 +243,11 @@ def ob_launch_ast():
 
 
 def _lemma(s, goal):
+    from vlib import smt
+
     s.add(z3.Not(goal))
-    return s.check()
+    r, _ = smt.z3_check(s, 60)
+    return {"unsat": z3.unsat, "sat": z3.sat}.get(r, z3.unknown)
 
 
 def ob_lemma_greedy():
@@ -485,8 +489,8 @@ LAUNCH_CASES = [("laplace_single", "screen3", ("P", 1), ("DP", 0), None), ("lapl
                 ("laplace_hyp", "octa", ("P", 1), ("P", 1), None), ("helmholtz_hyp", "screen3", ("P", 1), ("P", 1), (1, 2)),
                 ("modified_hyp", "cube12", ("P", 1), ("P", 1), (2, 3)), ("helmholtz_double", "octa", ("DP", 1), ("P", 1), None),
                 ("maxwell_electric", "octa", ("SNC", 0), ("RWG", 0), None), ("maxwell_magnetic", "screen3", ("SNC", 0), ("RWG", 0), (1, 2)),
-                ("maxwell_electric", "tetra", ("RBC", 0), ("RWG", 0), None), ("laplace_single", "octa", ("DUAL", 0), ("DP", 0), None),
-                ("laplace_single", "tetra", ("DUAL", 1), ("P", 1), None)]
+                ("maxwell_electric", "cube12", ("SNC", 0), ("RWG", 0), (1, 2)), ("laplace_adjoint", "screen2", ("DP", 1), ("DP", 0), (2,)),
+                ("modified_single", "tetra", ("P", 1), ("DP", 0), None)]
 
 
 def ob_launch_runtime(case):
@@ -636,6 +640,7 @@ def main():
     run.assume("methods of grid_data, shapeset / basis evaluators and numpy functions called in prange bodies do not write to shared arrays (unresolved callees are listed "
                "in the callee obligations)")
     run.assume("3x2 @ 2x3 matrix products outside the prange loops are delegated to BLAS and are deterministic; fastmath reassociation is fixed at compile time")
+    run.assume("spaces with a dof transformation (BC, RBC, DUAL) are rejected by the dense assembler; their colouring is still part of the sweep")
     run.assume("OpenCL kernels are not covered (no OpenCL device in this environment)")
     run.assumed_contract("store values", "the analysis decides WHERE iterations write, not WHAT: values are covered by C01-C08")
     return run.finish()
